@@ -2413,20 +2413,143 @@ def index_entries_stored_whole(ctx, p):
             continue
         seeds = [t['d'][0] for bi, t in b.calls() if bi in b.normal_blocks() and call_matches(t, ['re:MmapMut as std::ops::Deref(Mut)?>::deref(_mut)?$', 're:MmapMut::as_(mut_)?ptr$', 're:<\\[u8\\]>::as_(mut_)?ptr$', 're:slice::<impl \\[T\\]>::as_(mut_)?ptr$'])
                  and '.IndexTable.map' in backward_slice(b, [op_place(a) for a in t['a'] if op_place(a) is not None]).fields]
-        reads = [bi for bi, t in b.calls() if bi in b.normal_blocks() and call_matches(t, ["re:^log::LogReader::<'a>::read$", 're:LogReader.*::read$'])]
-        if not seeds or not reads:
+        if not seeds:
+            continue
+        RD = ["re:^log::LogReader::<'a>::read$", 're:LogReader.*::read$']
+        ST = ['re:Atomic.*::store$', 're:ptr::write_volatile$', 're:ptr::mut_ptr::<impl \\*mut T>::write_volatile$']
+        CP = ['re:copy_from_slice$', 're:ptr::copy(_nonoverlapping)?$', 're:clone_from_slice$', 're:slice::<impl \\[T\\]>::fill$']
+
+        def survey(body, seeds_, depth=2):
+            """(reads anywhere in the body, reads handed the page, stores into the page, byte copies into the page) - through the
+            private helpers that are handed (a pointer into) the page"""
+            tainted = lib.forward_taint(body, seeds_)
+            rd = [(body, bi) for bi, t in body.calls() if bi in body.normal_blocks() and call_matches(t, RD)]
+            direct = [(body, bi) for _, bi in rd if any(op_place(a) is not None and op_place(a)[0] in tainted for a in body.term(bi)['a'][1:])]
+            st = [(body, bi) for bi, t in body.calls() if bi in body.normal_blocks() and call_matches(t, ST) and any(op_place(a) is not None and op_place(a)[0] in tainted for a in t['a'][:1])]
+            cp = [(body, bi) for bi, t in body.calls() if bi in body.normal_blocks() and call_matches(t, CP) and any(op_place(a) is not None and op_place(a)[0] in tainted for a in t['a'][:1])]
+            if depth > 0:
+                for bi, t in body.calls():
+                    hit = [i for i, a in enumerate(t['a']) if op_place(a) is not None and op_place(a)[0] in tainted]
+                    hs = [n_ for n_ in sorted(set(call_names(t))) if n_ in F.bodies and n_ != body.path and n_.startswith('index::')]
+                    if bi in body.normal_blocks() and hit and hs:
+                        r2 = survey(F.bodies[hs[0]], [i + 1 for i in hit], depth - 1)
+                        rd, direct, st, cp = rd + r2[0], direct + r2[1], st + r2[2], cp + r2[3]
+            return rd, direct, st, cp
+        reads, direct, stores, other = survey(b, seeds)
+        if not reads:
             continue
         n += 1
-        tainted = lib.forward_taint(b, seeds)
-        direct = [bi for bi in reads if any(op_place(a) is not None and op_place(a)[0] in tainted for a in b.term(bi)['a'][1:])]
         ctx.ob(p + 'a log-bytes-never-read-straight-into-the-page %s' % pth, 'K4-provenance', pth,
                'no destination of LogReader::read in the applier of index pages derives from the mapping (an entry that straddles the reader\'s buffer would be written in two pieces under a concurrent page search)',
-               not direct, 'LogReader::read is handed a slice of the mapped page', b.loc(direct[0]) if direct else b.loc())
-        stores = [bi for bi, t in b.calls() if bi in b.normal_blocks() and call_matches(t, ['re:Atomic.*::store$', 're:ptr::write_volatile$', 're:ptr::mut_ptr::<impl \\*mut T>::write_volatile$'])
-                  and any(op_place(a) is not None and op_place(a)[0] in tainted for a in t['a'][:1])]
-        other = [bi for bi, t in b.calls() if bi in b.normal_blocks() and call_matches(t, ['re:copy_from_slice$', 're:ptr::copy(_nonoverlapping)?$', 're:clone_from_slice$', 're:slice::<impl \\[T\\]>::fill$'])
-                 and any(op_place(a) is not None and op_place(a)[0] in tainted for a in t['a'][:1])]
+               not direct, 'LogReader::read is handed a slice of the mapped page', direct[0][0].loc(direct[0][1]) if direct else b.loc())
         ctx.ob(p + 'b entry-put-into-the-page-with-one-store %s' % pth, 'K4-provenance', pth,
                'the applier writes an index entry into the mapped page with one 8-byte atomic (or volatile) store, and with nothing else',
-               bool(stores) and not other, 'atomic stores into the page: %d, byte copies into the page: %d' % (len(stores), len(other)), b.loc((stores or other or [0])[0]))
+               bool(stores) and not other, 'atomic stores into the page: %d, byte copies into the page: %d' % (len(stores), len(other)), ((stores or other or [(b, 0)])[0][0]).loc((stores or other or [(b, 0)])[0][1]))
     ctx.ob(p + '0 index-page-applier', 'anchor', 'index::IndexTable', 'the function that applies logged index entries to the mapped page was found', n >= 1, 'found %d' % n)
+
+
+def absence_is_not_decided_by_a_probe(ctx, p):
+    """F78 (C16). `Path::exists` / `is_file` / `is_dir` answer false for "not there" and for every error of the stat call alike.
+    A part of the database that is taken for absent is created anew: a failing stat made `open_or_create` take an existing
+    database for a new one, draw a fresh salt and rename a new `metadata` over the old one - every key of the database hashes
+    elsewhere afterwards. The false answer of such a probe therefore never leads to a success return: it may refuse (the safe
+    direction), "absent" is concluded only from the NotFound kind of an operation on the file itself."""
+    F = ctx.F
+    PROBE = ['re:std::path::Path::(exists|is_file|is_dir|is_symlink)$', 're:std::path::PathBuf::(exists|is_file|is_dir|is_symlink)$']
+    n = 0
+    for pth, b in sorted(F.bodies.items()):
+        k_ = 0
+        for s_ in b.call_sites(*PROBE):
+            if s_ not in b.normal_blocks():
+                continue
+            n += 1
+            k_ += 1
+            edges = lib.bool_outcome_edges(b, [s_])
+            ok, det = bool(edges), 'the answer of the probe is not branched on directly'
+            exits = core.error_exit_blocks(b)
+            for sw, tr, fa in edges:
+                if fa[1] in exits:
+                    continue
+                w = b.find_path([fa[1]], b.return_blocks(), removed=set(exits))
+                if w is not None:
+                    ok, det = False, 'success return on the "false" answer (which a failing stat gives too): ' + lib.short_path(b, w)
+            ctx.ob(p + 'a probe-false-never-means-absent %s #%d' % (pth, k_), 'K3-guard', pth,
+                   'the false answer of Path::exists / is_file / is_dir (also given when the stat call fails) leads to an error, never to a success return that treats the object as absent',
+                   ok, '' if ok else det, b.loc(s_))
+    # the metadata loader says "no database here" only on NotFound
+    lm = ctx.body('options::Options::load_metadata_file')
+    if lm:
+        m = 0
+        for bi in lm.normal_blocks():
+            for st in lm.blocks[bi]['s']:
+                if st['k'] == 'assign' and st['p'] == [0] and st['r']['k'] == 'agg' and st['r']['ak'] == 'Adt:std::result::Result::Ok' and st['r']['a'] and op_place(st['r']['a'][0]) is not None:
+                    l = op_place(st['r']['a'][0])[0]
+                    ds = [d for d in lm.defs().get(l, []) if d[2] == 'assign']
+                    if ds and all(d[3]['r']['k'] == 'agg' and d[3]['r']['ak'] == 'Adt:std::option::Option::None' for d in ds):
+                        m += 1
+                        kinds = lib.errkind_guarded(lm, bi)
+                        ctx.ob(p + 'b no-metadata-only-on-NotFound', 'K3-guard', lm.path,
+                               'the metadata loader answers "no metadata" (a new database may be created) only on the NotFound outcome of opening the file',
+                               kinds == {'NotFound'}, 'Ok(None) returned %s' % ('on error kinds %s' % sorted(kinds) if kinds else 'without looking at the error kind of File::open'), lm.loc(bi))
+        ctx.ob(p + 'c no-metadata-exit', 'anchor', lm.path, 'the metadata loader has one "no metadata" exit', m == 1, 'found %d' % m)
+    ctx.ob(p + '0 probes', 'anchor', '-', 'the survey of existence probes ran (the crate has at least the is_dir test of a non-creating open)', n >= 1, 'probes %d' % n)
+
+
+def session_ended_with_close_before_files_change(ctx, p):
+    """F79 (C16, C17). The administration calls and the migration open the database to have the write-ahead logs replayed and
+    removed, end that session and then delete, move or rewrite files. The session is not idle (replay, the reindex that the log
+    worker starts with), and its shutdown can fail - `Drop` can only log that. A handle that is just dropped hides the failure:
+    reset_column returned Ok with a log left behind whose replay, at the next open, put index entries into the emptied column
+    (reads of 64 keys panic). Wherever a handle is given up on a success path and the directory is modified afterwards, it is
+    given up with `Db::close` (whose error is propagated: error discipline)."""
+    F = ctx.F
+    PRIM = ['re:^std::fs::(remove_file|remove_dir_all|remove_dir|rename|copy|write|create_dir|create_dir_all)$', 're:^std::fs::File::(create|set_len)$']
+    direct = set(F.direct_callers_of(*PRIM))
+    writers = set(direct) | set(F.transitive_callers(direct))
+
+    def drop_sites(b):
+        dbl = [i for i, t in enumerate(b.locals) if str(t) == 'db::Db']
+        out = []
+        for bi in sorted(b.normal_blocks()):
+            t = b.term(bi)
+            if t['k'] == 'drop' and t.get('p') and len(t['p']) == 1 and t['p'][0] in dbl:
+                out.append(bi)
+            elif t['k'] == 'call' and call_matches(t, ['std::mem::drop']) and re.search(r'drop::<db::Db>$', str(t.get('fa'))):
+                out.append(bi)
+        exits = core.error_exit_blocks(b)
+        return [s for s in out if b.find_path([0], {s}, removed=set(exits)) is not None]
+
+    def modifies_after(b, s):
+        exits = core.error_exit_blocks(b)
+        for x in sorted(b.reachable_from(list(b.succ(s)), removed=set(exits))):
+            t = b.term(x)
+            if t['k'] == 'call' and x in b.normal_blocks() and (call_matches(t, PRIM) or any(n in writers and n in F.bodies for n in call_names(t))):
+                return x
+        return None
+    n = 0
+    enders = {}
+    for pth, b in sorted(F.bodies.items()):
+        if '{closure' in pth or pth in ('db::Db::close', '<db::Db as std::ops::Drop>::drop', 'db::Db::drop_inner'):
+            continue
+        for s in drop_sites(b):
+            n += 1
+            m = modifies_after(b, s)
+            if m is None:
+                exits = core.error_exit_blocks(b)
+                if b.find_path(list(b.succ(s)), b.return_blocks(), removed=set(exits)) is not None:
+                    enders.setdefault(pth, []).append(s)
+            ctx.ob(p + 'a session-not-ended-by-drop-before-files-change %s' % pth, 'K2-order', pth,
+                   'a database handle is not given up by dropping it (a failed shutdown is only logged then) on a success path that goes on to delete, move or rewrite files of the database: Db::close reports the failure',
+                   m is None, 'dropped at %s, then %s' % (b.loc(s), (b.term(m).get('r') or b.term(m).get('f')) if m is not None else ''), b.loc(s))
+    # a helper whose job is "open, look, end the session" (precheck_column_operation): its callers are the ones that modify
+    for hp in sorted(enders):
+        for pth, b in sorted(F.bodies.items()):
+            for s in [bi for bi, t in b.calls() if bi in b.normal_blocks() and hp in call_names(t)]:
+                n += 1
+                m = modifies_after(b, s)
+                ctx.ob(p + 'a session-not-ended-by-drop-before-files-change %s via %s' % (pth, hp), 'K2-order', pth,
+                       'a database handle is not given up by dropping it (a failed shutdown is only logged then) on a success path that goes on to delete, move or rewrite files of the database: Db::close reports the failure',
+                       m is None, '%s drops its handle and returns; then %s' % (hp, (b.term(m).get('r') or b.term(m).get('f')) if m is not None else ''), b.loc(s))
+    closes = sorted(set(c for c in F.direct_callers_of('db::Db::close')))
+    ctx.ob(p + '0 sessions-ended-with-close', 'anchor', 'db::Db::close', 'the administration and migration code ends its sessions with Db::close', len(closes) >= 1, str(closes))
+    ctx.info['sessions.dropped_on_success_paths'] = n
